@@ -4,7 +4,7 @@ import glob, json, os, sys
 V = os.path.dirname(os.path.dirname(os.path.abspath(__file__)))
 base = json.load(open("/root/.vp/BASELINE.json"))
 props = [json.loads(l)["id"] for l in open(os.path.join(V, "properties.jsonl"))]
-cfgs = {c["id"]: c for c in (json.load(open(p)) for p in sorted(glob.glob(os.path.join(V, "checks", "C*.json"))))}
+cfgs = {c["id"]: c for c in (json.load(open(p)) for p in sorted(glob.glob(os.path.join(V, "checks", "C*.json")))) if c.get("ready")}
 na_path = os.path.join(V, "checks", "not_applicable.json")
 na = json.load(open(na_path)) if os.path.exists(na_path) else {}
 checks = []
